@@ -34,3 +34,6 @@ int sortname (int n, int len) { mixed *a = allocate (n); string f = repeat_strin
 int deepfp (int n) { function f = (: spin :); int i; for (i = 0; i < n; i++) f = (: call_other, this_object (), "kind", f :); return strlen (sprintf ("%O", f)); }
 int deeparr (int n) { mixed a = ({ }); int i; for (i = 0; i < n; i++) a = ({ a }); a = 0; return n; }
 int deeparr_eq (int n) { mixed a = ({ }), b = ({ }); int i; for (i = 0; i < n; i++) { a = ({ a }); b = ({ b }); } return a == b; }
+int rpl1 (int n, int r) { mixed x = replace_string (repeat_string ("a", n), "a", repeat_string ("x", r)); return stringp (x) ? strlen (x) : -1; }
+int rpl0 (int n, int r) { mixed x = replace_string (repeat_string ("ab", n), "ab", repeat_string ("x", r)); return stringp (x) ? strlen (x) : -1; }
+int rplmax (int n, int r, int first, int last) { mixed x = replace_string (repeat_string ("ab", n), "ab", repeat_string ("x", r), first, last); return stringp (x) ? strlen (x) : -1; }
